@@ -85,6 +85,17 @@ def eval_unit(unit, tier):
     if base["status"] != "ok":
         out["status"] = "undecided"
         out["reasons"] += base["reasons"]
+    # thorough tier: the same file under further Z3 seeds (VERIF_SEED when set, else 1 and 2).  A proof that holds only for some
+    # seeds is brittle -- an unrelated edit can flip it -- and makes the unit UNDECIDED (exit 2), never a violation.
+    if tier == "thorough" and base["status"] == "ok" and not base["errors"]:
+        sd = int(os.environ.get("VERIF_SEED", "0") or 0)
+        for seed in ([sd] if sd else [1, 2]):
+            r2 = R.run_verus(base["text"], f"{unit.name}__seed{seed}", rlimit=unit.rlimit, extra=["--smt-option", f"smt.random_seed={seed}"])
+            vr2 = (r2["json"] or {}).get("verification-results", {})
+            out["cmds"].append(r2["cmd"])
+            if r2["json"] is None or vr2.get("errors"):
+                out["status"] = "undecided"
+                out["reasons"].append(f"brittle proof: {vr2.get('errors')} error(s) under smt.random_seed={seed} although the default seed verifies")
     # forbidden constructs in hand-written proof text
     lem_text = "".join(open(os.path.join(VERIF, "lemmas", p)).read() for p in unit.lemmas)
     inj_text = ""
@@ -103,10 +114,10 @@ def eval_unit(unit, tier):
     out["smt_ms"] = sum(v["ms"] for v in smt.values())
     for m in base["metas"]:
         if m["mode"] in ("type", "pinned"):
-            out.setdefault("types", []).append({"key": m["key"], "where": f"/repo/{m['src']}:{m['line']}", "sha256": m["sha256"], "mode": m["mode"]})
+            out.setdefault("types", []).append({"key": m["key"], "where": (f"{m['src']}:{m['line']}" if m['src'].startswith("/") else f"/repo/{m['src']}:{m['line']}"), "sha256": m["sha256"], "mode": m["mode"]})
             continue
         (out["functions"] if m["mode"] == "prove" else out["assumed_functions"]).append(
-            {"key": m["key"], "where": f"/repo/{m['src']}:{m['line']}", "sha256": m["sha256"], "rules": m.get("rules", []),
+            {"key": m["key"], "where": (f"{m['src']}:{m['line']}" if m['src'].startswith("/") else f"/repo/{m['src']}:{m['line']}"), "sha256": m["sha256"], "rules": m.get("rules", []),
              "mode": m["mode"]})
     for f in unit.fns():
         if f.mode != "prove":
